@@ -35,7 +35,13 @@ def run(tier, seed):
     progs = universe(tier, seed)
     py = K.RENDERERS[0]
     # reference: the python rendering with out() recording
-    ref_progs = [(name, py.program(defs).replace("out(", "print(")) for name, defs in progs]
+    def render(r, name, defs):
+        r.natural = name.endswith("_natural") or name.endswith("constants_only")
+        try:
+            return r.program(defs)
+        finally:
+            r.natural = False
+    ref_progs = [(name, render(py, name, defs).replace("out(", "print(")) for name, defs in progs]
     ref = c01.reference(ref_progs, root)
     ok = [(n, d) for n, d in progs if ref[n]["ok"]]
     skipped = len(progs) - len(ok)
@@ -44,7 +50,7 @@ def run(tier, seed):
         for k in range(0, len(ok), 40):
             files, names = {}, {}
             for i, (name, defs) in enumerate(ok[k:k + 40]):
-                files["p%04d%s" % (i, r.ext)] = r.program(defs)
+                files["p%04d%s" % (i, r.ext)] = render(r, name, defs)
                 names["p%04d" % i] = name
             jobs.append(dict(cmd="lang", lang=r.name, files=files, dir=os.path.join(root, "%s_%05d" % (r.name, k)), export=["gir", "modules"],
                              flags=["--nomock"], timeout=900, _names=names, _r=r, _files=files))
